@@ -1,4 +1,4 @@
-import ExprModel.Proofs.SoundColl
+import ExprModel.Proofs.SoundCall
 /-
 Soundness against `Spec.eval`: assembly.  The predicate builtins at the level of the checker, the
 fragment predicates (`inFrag2`, `typed2`) and the induction over the extended fragment.
@@ -133,30 +133,215 @@ theorem spec2_predBuiltin (cfg : CheckCfg) (c : SCfg) (cs : List OTy) (m mc : Me
       · simp only [hbool] at hrule
         simp at hrule
 
+/-! ### `filter` and `map` under the documented rule (`[]interface{}`) -/
+
+theorem rok_fetch (hi : E .index) {a b : Val} {k : RKind} {ki : Kind} (ha : ArrOf a k) (hb : NumOf b ki) :
+    ROK E (fun _ : Val => True) (fetchV a b false) := by
+  have h0 := fetchV_arr (E := E) hi ha hb
+  revert h0
+  generalize fetchV a b false = r
+  intro h0
+  cases r with
+  | ok v => trivial
+  | error e => exact h0
+
+/-- a loop step: continue with any accumulator, never decide -/
+def StepAny {α : Type} (r : α ⊕ Val) : Prop :=
+  match r with
+  | .inl _ => True
+  | .inr _ => False
+
+theorem smok_loopIdx {α : Type} (body : Nat → α → SM (α ⊕ Val))
+    (hbody : ∀ i acc, SMOK E StepAny (body i acc)) :
+    ∀ fuel i acc, SMOK E StepAny (loopIdx body fuel i acc)
+  | 0, _, _ => smok_pure (Q := StepAny) trivial
+  | fuel + 1, i, acc => by
+    simp only [loopIdx]
+    refine smok_bind (hbody i acc) ?_
+    intro r hr
+    cases r with
+    | inl acc' => exact smok_loopIdx body hbody fuel (i + 1) acc'
+    | inr v => exact absurd hr id
+
+/-- `filter(xs, {p})` and `map(xs, {e})` when the checker reports `[]interface{}` for them (the documented
+rule, `staticSliceOf = false`): the value is a `[]interface{}`.  With the rule of the code as it is
+(`[]T`, known finding) the static type claims an element tag the value does not have. -/
+theorem spec2_filterMap (hi : E .index) (hbud : E .budget) (cfg : CheckCfg) (c : SCfg) (cs : List OTy) (m mc : Meta)
+    (name : String) (a b : Node) (hname : name = "filter" ∨ name = "map")
+    (hdt : cfg.dt.staticSliceOf = false)
+    (iha : Spec2 E cfg c cs a)
+    (ihb : ∀ coll, synth cfg cs a = some coll → Spec2 E cfg c (coll :: cs) b)
+    (ha : ∀ t, synth cfg cs a = some t → ∃ k, sliceElemKind t = some k)
+    (hb : ∀ coll bt, synth cfg cs a = some coll → synth cfg (coll :: cs) b = some bt →
+      (∃ Vb, vtyOf bt = some Vb) ∧ (name = "filter" → ScalarT bt)) :
+    Spec2 E cfg c cs (.builtin m name [a, .closure mc b]) := by
+  intro τ V hs hV st hst
+  have hcb : isCollBuiltin name = true := by
+    rcases hname with rfl | rfl <;> decide
+  simp only [synth, hcb, if_true] at hs
+  cases hsa : synth cfg cs a with
+  | none => rw [hsa] at hs; cases hs
+  | some coll =>
+    rw [hsa] at hs
+    simp only [] at hs
+    obtain ⟨k, hk⟩ := ha coll hsa
+    obtain ⟨harr, _⟩ := slice_type_facts hk
+    simp only [harr, Bool.not_true, Bool.false_eq_true, if_false] at hs
+    cases hsb : synth cfg (coll :: cs) b with
+    | none => rw [hsb] at hs; cases hs
+    | some bto =>
+      obtain ⟨⟨Vb, hVb⟩, hfs⟩ := hb coll bto hsa hsb
+      have hbsome : ∃ bt, bto = some bt := by
+        cases bto with
+        | none => simp [vtyOf, OTy.kind, RKind.isScalar, sliceElemKind, isAnySlice] at hVb
+        | some bt => exact ⟨bt, rfl⟩
+      obtain ⟨bt, rfl⟩ := hbsome
+      rw [hsb] at hs
+      simp only [] at hs
+      have hrule := toOption'_some hs
+      -- the result type is `[]interface{}`; for `filter` the closure's result is boolean
+      have hshape : collBuiltinRule cfg.dt name coll (closureType bt) =
+          (if name == "map" then Except.ok arrayTy
+           else if !isBoolT (some bt) then Except.error CheckErrClass.closureNotBool else Except.ok arrayTy) := by
+        rcases hname with rfl | rfl <;>
+          simp (config := {decide := true}) [collBuiltinRule, closureType, interfaceType, Ty.kind, Ty.core, hdt]
+      have hτ : τ = arrayTy ∧ (name = "filter" → OTy.kind (some bt) = .bool) := by
+        rw [hshape] at hrule
+        rcases hname with rfl | rfl
+        · simp (config := {decide := true}) only [if_false] at hrule
+          by_cases hbool : isBoolT (some bt) = true
+          · simp only [hbool, Bool.not_true, Bool.false_eq_true, if_false] at hrule
+            cases hrule
+            exact ⟨rfl, fun _ => (isBoolT_scalar (hfs rfl)).1 hbool⟩
+          · simp only [hbool] at hrule
+            simp at hrule
+        · simp (config := {decide := true}) only [if_true] at hrule
+          cases hrule
+          exact ⟨rfl, fun h => absurd h (by decide)⟩
+      obtain ⟨rfl, hfk⟩ := hτ
+      have : V = .anys := by
+        have : vtyOf arrayTy = some .anys := by decide
+        rw [this] at hV; cases hV; rfl
+      subst this
+      -- visit
+      obtain ⟨e1, _, ev1⟩ := iha coll (.sl k) hsa (vtyOf_slice_of hk) st hst
+      have hst1 := visit_colls cfg a st
+      rcases hav : visit cfg a st with ⟨a', coll', st1⟩
+      rw [hav] at e1 ev1 hst1
+      simp only [] at e1 ev1 hst1
+      subst e1
+      have hpush : ({ st1 with colls := coll' :: st1.colls } : CState).colls = coll' :: cs := by
+        simp only [hst1, hst]
+      obtain ⟨e2, _, ev2⟩ := ihb coll' hsa (some bt) Vb hsb hVb { st1 with colls := coll' :: st1.colls } hpush
+      rcases hbv : visit cfg b { st1 with colls := coll' :: st1.colls } with ⟨b', bt', st2⟩
+      rw [hbv] at e2 ev2
+      simp only [] at e2 ev2
+      subst e2
+      simp only [visit, hcb, if_true, hav, harr, Bool.not_true, Bool.false_eq_true, if_false, hbv, hrule, orFail_ok]
+      refine ⟨trivial, setKd_kd _ _, ?_⟩
+      apply smok_evalOKV
+      intro ctx hctx
+      have hX := evalOKV_smok ev1 ctx hctx
+      -- the closure's body at an element of the collection
+      have hbody : ∀ (collv : Val), ArrOf collv k → ∀ i : Nat,
+          SMOK E (fun v => ValOfV v Vb) (eval c ((collv, (i : Int)) :: ctx) (.closure { mc with kd := OTy.kind (closureType bt) } b')) := by
+        intro collv hcv i
+        simp only [eval]
+        exact evalOKV_smok ev2 ((collv, (i : Int)) :: ctx) ⟨k, hk, hcv⟩
+      rcases hname with rfl | rfl
+      · -- filter
+        have hVbool : Vb = .sc .bool := by
+          have := hfk rfl
+          rw [vtyOf_scalar (hfs rfl), this] at hVb
+          cases hVb; rfl
+        subst hVbool
+        show SMOK E (fun v => ∃ ys, v = .arr .iface ys) (eval c ctx (.builtin _ "filter" [a', .closure _ b']))
+        simp (config := {decide := true}) only [eval, builtinNames, List.contains, List.elem, if_true, if_false]
+        refine smok_bind hX ?_
+        intro collv hcv
+        obtain ⟨et, xs, rfl, htag, hxs⟩ := hcv
+        have hcv : ArrOf (.arr et xs) k := ⟨et, xs, rfl, htag, hxs⟩
+        refine smok_bind (Qa := fun _ => True) (smok_lift trivial) ?_
+        intro n _
+        refine smok_bind (smok_loopIdx _ ?_ _ _ _) ?_
+        · intro i acc
+          have hb' := hbody _ hcv i
+          simp only [eval] at hb'
+          refine smok_bind hb' ?_
+          intro v hv
+          refine smok_bind (smok_asBool hv (fun _ => True) (fun _ => trivial)) ?_
+          intro bv _
+          cases bv
+          · exact smok_pure (Q := StepAny) trivial
+          · simp only [if_true]
+            have hnum : NumOf (Val.int Kind.int (i : Int)) Kind.int := ⟨(i : Int), rfl⟩
+            revert hnum
+            generalize Val.int Kind.int (i : Int) = bidx
+            intro hnum
+            have hfetch := smok_lift (E := E) (rok_fetch (E := E) hi hcv hnum)
+            exact smok_bind hfetch (fun el _ => smok_pure (Q := StepAny) trivial)
+        · intro r hr
+          cases r with
+          | inr v => exact absurd hr id
+          | inl acc =>
+            refine smok_bind (smok_allocAfter hbud _ _ _) ?_
+            intro _ _
+            exact smok_pure ⟨_, rfl⟩
+      · -- map
+        show SMOK E (fun v => ∃ ys, v = .arr .iface ys) (eval c ctx (.builtin _ "map" [a', .closure _ b']))
+        simp (config := {decide := true}) only [eval, builtinNames, List.contains, List.elem, if_true, if_false]
+        refine smok_bind hX ?_
+        intro collv hcv
+        obtain ⟨et, xs, rfl, htag, hxs⟩ := hcv
+        have hcv : ArrOf (.arr et xs) k := ⟨et, xs, rfl, htag, hxs⟩
+        refine smok_bind (Qa := fun _ => True) (smok_lift trivial) ?_
+        intro n _
+        refine smok_bind (smok_loopIdx _ ?_ _ _ _) ?_
+        · intro i acc
+          have hb' := hbody _ hcv i
+          simp only [eval] at hb'
+          refine smok_bind hb' ?_
+          intro v _
+          exact smok_pure (Q := StepAny) trivial
+        · intro r hr
+          cases r with
+          | inr v => exact absurd hr id
+          | inl acc =>
+            refine smok_bind (smok_allocAfter hbud _ _ _) ?_
+            intro _ _
+            exact smok_pure ⟨_, rfl⟩
+
 /-! ### the extended fragment -/
 
+mutual
 /-- literals, identifiers, `#`, the operators of the scalar fragment, `in` / `not in` / `..`, indexing,
-`len`, and `all none any one count` with their closures.  (`filter` and `map` are left out: their static
-result type `[]T` is not the `[]interface{}` the VM builds — known finding; so are slicing, members and
-calls.) -/
-def inFrag2 : Node → Bool
+`len`, slicing, `all none any one count` with their closures and — with `calls` — calls of environment
+functions.  (`filter` and `map` are left out: their static result type `[]T` is not the `[]interface{}`
+the VM builds — known finding; so are members and method calls.) -/
+def inFrag2 (calls : Bool) : Node → Bool
   | .bool _ _ | .str _ _ | .int _ _ | .float _ _ | .ident _ _ _ | .pointer _ => true
-  | .unary _ op x => fragUnary op && inFrag2 x
-  | .binary _ op l r => (fragBinary op || op == "in" || op == "not in" || op == "..") && inFrag2 l && inFrag2 r
-  | .cond _ c a b => inFrag2 c && inFrag2 a && inFrag2 b
-  | .index _ x i => inFrag2 x && inFrag2 i
-  | .builtin _ name [a] => name == "len" && inFrag2 a
-  | .builtin _ name [a, .closure _ b] => isPredBuiltin name && inFrag2 a && inFrag2 b
+  | .unary _ op x => fragUnary op && inFrag2 calls x
+  | .binary _ op l r => (fragBinary op || op == "in" || op == "not in" || op == ".." || op == "**") && inFrag2 calls l && inFrag2 calls r
+  | .cond _ c a b => inFrag2 calls c && inFrag2 calls a && inFrag2 calls b
+  | .index _ x i => inFrag2 calls x && inFrag2 calls i
+  | .slice _ x none none => inFrag2 calls x
+  | .slice _ x (some f) none => inFrag2 calls x && inFrag2 calls f
+  | .slice _ x none (some t) => inFrag2 calls x && inFrag2 calls t
+  | .slice _ x (some f) (some t) => inFrag2 calls x && inFrag2 calls f && inFrag2 calls t
+  | .builtin _ name [a] => name == "len" && inFrag2 calls a
+  | .builtin _ name [a, .closure _ b] =>
+    (isPredBuiltin name || name == "filter" || name == "map") && inFrag2 calls a && inFrag2 calls b
+  | .func _ _ args _ => calls && inFrag2L calls args
+  | .array _ xs => inFrag2L calls xs
   | _ => false
+def inFrag2L (calls : Bool) : List Node → Bool
+  | [] => true
+  | a :: rest => inFrag2 calls a && inFrag2L calls rest
+end
 
 def sliceOK (t : Option OTy) : Bool :=
   match t with
   | some τ => (sliceElemKind τ).isSome
-  | none => false
-
-def vtyOK (t : Option OTy) : Bool :=
-  match t with
-  | some τ => (vtyOf τ).isSome
   | none => false
 
 /-- an integer of scalar type (excludes the loose index rule: a string index on a slice) -/
@@ -167,9 +352,28 @@ def intOK (t : Option OTy) : Bool :=
 
 def lenOK (t : Option OTy) : Bool :=
   match t with
-  | some τ => τ.kind == .string || (sliceElemKind τ).isSome
+  | some τ =>
+    (match vtyOf τ with
+      | some V => V == .sc .string || V.isSlice
+      | none => false)
   | none => false
 
+/-- a slice of scalars or a `[]interface{}` -/
+def sliceVOK (t : Option OTy) : Bool :=
+  match t with
+  | some τ =>
+    (match vtyOf τ with
+      | some V => V.isSlice
+      | none => false)
+  | none => false
+
+/-- both branches and the conditional have one value type -/
+def condOK (dt : TDefects) (a b : Option OTy) : Bool :=
+  match a, b with
+  | some t1, some t2 => (vtyOf t1).isSome && vtyOf t2 == vtyOf t1 && vtyOf (condType dt t1 t2) == vtyOf t1
+  | _, _ => false
+
+mutual
 /-- "all its operands are statically typed", for the extended fragment: every operand of a scalar operator
 has a scalar type, collections are slices of scalars, indices are integers, closure bodies are scalar -/
 def typed2 (cfg : CheckCfg) : List OTy → Node → Bool
@@ -177,31 +381,75 @@ def typed2 (cfg : CheckCfg) : List OTy → Node → Bool
   | cs, .binary m op l r =>
     (if fragBinary op then
         scalarOK (synth cfg cs (.binary m op l r)) && scalarOK (synth cfg cs l) && scalarOK (synth cfg cs r)
-     else if op == "in" || op == "not in" then vtyOK (synth cfg cs l) && sliceOK (synth cfg cs r)
+     else if op == "in" || op == "not in" then vtyOK (synth cfg cs l) && sliceVOK (synth cfg cs r)
      else scalarOK (synth cfg cs l) && scalarOK (synth cfg cs r)) &&
     typed2 cfg cs l && typed2 cfg cs r
-  | cs, .cond m c a b =>
-    scalarOK (synth cfg cs (.cond m c a b)) && scalarOK (synth cfg cs c) && scalarOK (synth cfg cs a) &&
-      scalarOK (synth cfg cs b) && typed2 cfg cs c && typed2 cfg cs a && typed2 cfg cs b
+  | cs, .cond _ c a b =>
+    scalarOK (synth cfg cs c) && condOK cfg.dt (synth cfg cs a) (synth cfg cs b) &&
+      typed2 cfg cs c && typed2 cfg cs a && typed2 cfg cs b
   | cs, .index _ x i =>
     sliceOK (synth cfg cs x) && intOK (synth cfg cs i) && typed2 cfg cs x && typed2 cfg cs i
+  | cs, .slice _ x none none => sliceOK (synth cfg cs x) && typed2 cfg cs x
+  | cs, .slice _ x (some f) none => sliceOK (synth cfg cs x) && typed2 cfg cs x && intOK (synth cfg cs f) && typed2 cfg cs f
+  | cs, .slice _ x none (some t) => sliceOK (synth cfg cs x) && typed2 cfg cs x && intOK (synth cfg cs t) && typed2 cfg cs t
+  | cs, .slice _ x (some f) (some t) =>
+    sliceOK (synth cfg cs x) && typed2 cfg cs x && intOK (synth cfg cs f) && typed2 cfg cs f &&
+      intOK (synth cfg cs t) && typed2 cfg cs t
   | cs, .builtin _ _ [a] => lenOK (synth cfg cs a) && typed2 cfg cs a
-  | cs, .builtin _ _ [a, .closure _ b] =>
+  | cs, .builtin _ name [a, .closure _ b] =>
     sliceOK (synth cfg cs a) && typed2 cfg cs a &&
+    -- `filter` / `map`: only under the documented rule (result `[]interface{}`); the code's `[]T` is the known finding
+    (isPredBuiltin name || !cfg.dt.staticSliceOf) &&
     (match synth cfg cs a with
-      | some coll => scalarOK (synth cfg (coll :: cs) b) && typed2 cfg (coll :: cs) b
+      | some coll =>
+        (if name == "map" then vtyOK (synth cfg (coll :: cs) b) else scalarOK (synth cfg (coll :: cs) b)) &&
+          typed2 cfg (coll :: cs) b
       | none => false)
+  | cs, .func _ name args _ =>
+    (match funcTargetC cfg name with
+      | some (fn, im) =>
+        (match funcPlan fn im args.length with
+          | .inr (ins, variadic, numIn, offset, _) => typed2A cfg cs ins variadic numIn offset 0 args
+          | .inl _ => false)
+      | none => false)
+  | cs, .array _ xs => typed2L cfg cs xs
   | _, _ => true
+/-- the elements of an array literal: each has a value type of the fragment -/
+def typed2L (cfg : CheckCfg) : List OTy → List Node → Bool
+  | _, [] => true
+  | cs, a :: rest => vtyOK (synth cfg cs a) && typed2 cfg cs a && typed2L cfg cs rest
+/-- the arguments of a call: each fits its parameter in the fragment's sense (`argOK`) -/
+def typed2A (cfg : CheckCfg) : List OTy → List Ty → Bool → Nat → Nat → Nat → List Node → Bool
+  | _, _, _, _, _, _, [] => true
+  | cs, ins, variadic, numIn, offset, i, a :: rest =>
+    argOK cfg a (synth cfg cs a) (paramFor ins variadic numIn offset i) && typed2 cfg cs a &&
+      typed2A cfg cs ins variadic numIn offset (i + 1) rest
+end
 
 theorem envConforms_of2 {cfg : CheckCfg} {env : Val} (h : EnvConforms2 cfg env) : EnvConforms cfg env := by
   intro name ns τ hr hs
   obtain ⟨v, hv, hk⟩ := h name ns τ (.sc τ.kind) hr (vtyOf_scalar hs)
   exact ⟨v, hv, hk⟩
 
+theorem sliceOK_elim {o : Option OTy} (h : sliceOK o = true) :
+    ∀ t, o = some t → ∃ k, sliceElemKind t = some k := by
+  intro t ht
+  rw [ht] at h
+  simp only [sliceOK, Option.isSome_iff_exists] at h
+  exact h
+
+theorem intOK_elim {o : Option OTy} (h : intOK o = true) :
+    ∀ it, o = some it → ScalarT it ∧ isIntegerT it = true := by
+  intro it hit
+  rw [hit] at h
+  simp only [intOK, Bool.and_eq_true] at h
+  exact ⟨h.1, h.2⟩
+
+mutual
 /-- **Soundness on the extended fragment**, by recursion over the tree. -/
 theorem frag2_sound (hd : E .divzero) (hi : E .index) (hbud : E .budget) (cfg : CheckCfg) (c : SCfg)
-    (henv : EnvConforms2 cfg c.env) :
-    ∀ (n : Node) (cs : List OTy), inFrag2 n = true → typed2 cfg cs n = true → Spec2 E cfg c cs n
+    (henv : EnvConforms2 cfg c.env) (calls : Bool) (hw : calls = true → WorldConforms E cfg c) :
+    ∀ (n : Node) (cs : List OTy), inFrag2 calls n = true → typed2 cfg cs n = true → Spec2 E cfg c cs n
   | .bool m b, cs, _, _ =>
     frag_to_spec2 (frag_sound hd cfg cs c (envConforms_of2 henv) (.bool m b) rfl rfl)
       (fun τ h => by simp only [synth, Option.some.injEq] at h; subst h; rfl)
@@ -219,7 +467,7 @@ theorem frag2_sound (hd : E .divzero) (hi : E .index) (hbud : E .budget) (cfg : 
   | .unary m op x, cs, hf, ht => by
     simp only [inFrag2, Bool.and_eq_true] at hf
     simp only [typed2, Bool.and_eq_true] at ht
-    have ihx := frag2_sound hd hi hbud cfg c henv x cs hf.2 ht.2
+    have ihx := frag2_sound hd hi hbud cfg c henv calls hw x cs hf.2 ht.2
     refine frag_to_spec2 (frag_unary cfg cs c m op x hf.1 ht.1.1 ht.1.2 (spec2_to_frag ihx)) ?_
     intro τ h
     have := ht.1.1
@@ -227,21 +475,24 @@ theorem frag2_sound (hd : E .divzero) (hi : E .index) (hbud : E .budget) (cfg : 
   | .cond m cn a b, cs, hf, ht => by
     simp only [inFrag2, Bool.and_eq_true] at hf
     simp only [typed2, Bool.and_eq_true] at ht
-    obtain ⟨⟨⟨⟨⟨⟨h0, h1⟩, h2⟩, h3⟩, t1⟩, t2⟩, t3⟩ := ht
-    have ih1 := frag2_sound hd hi hbud cfg c henv cn cs hf.1.1 t1
-    have ih2 := frag2_sound hd hi hbud cfg c henv a cs hf.1.2 t2
-    have ih3 := frag2_sound hd hi hbud cfg c henv b cs hf.2 t3
-    refine frag_to_spec2 (frag_cond cfg cs c m cn a b h0 h1 h2 h3 (spec2_to_frag ih1) (spec2_to_frag ih2)
-      (spec2_to_frag ih3)) ?_
-    intro τ h
-    rw [h] at h0; exact h0
+    obtain ⟨⟨⟨⟨h0, h1⟩, t1⟩, t2⟩, t3⟩ := ht
+    refine spec2_cond cfg c cs m cn a b (frag2_sound hd hi hbud cfg c henv calls hw cn cs hf.1.1 t1)
+      (frag2_sound hd hi hbud cfg c henv calls hw a cs hf.1.2 t2)
+      (frag2_sound hd hi hbud cfg c henv calls hw b cs hf.2 t3) ?_ ?_
+    · intro ct h
+      rw [h] at h0; exact h0
+    · intro ta tb ha hb
+      rw [ha, hb] at h1
+      simp only [condOK, Bool.and_eq_true, beq_iff_eq] at h1
+      obtain ⟨V, hV⟩ := Option.isSome_iff_exists.1 h1.1.1
+      exact ⟨V, hV, by rw [h1.1.2, hV], by rw [h1.2, hV]⟩
   | .binary m op l r, cs, hf, ht => by
     simp only [inFrag2, Bool.and_eq_true] at hf
     simp only [typed2, Bool.and_eq_true] at ht
     obtain ⟨⟨hop, hfl⟩, hfr⟩ := hf
     obtain ⟨⟨hcls, htl⟩, htr⟩ := ht
-    have ihl := frag2_sound hd hi hbud cfg c henv l cs hfl htl
-    have ihr := frag2_sound hd hi hbud cfg c henv r cs hfr htr
+    have ihl := frag2_sound hd hi hbud cfg c henv calls hw l cs hfl htl
+    have ihr := frag2_sound hd hi hbud cfg c henv calls hw r cs hfr htr
     by_cases hfb : fragBinary op = true
     · simp only [hfb, if_true, Bool.and_eq_true] at hcls
       refine frag_to_spec2 (frag_binary hd cfg cs c m op l r hfb hcls.1.2 hcls.2 (spec2_to_frag ihl)
@@ -260,27 +511,33 @@ theorem frag2_sound (hd : E .divzero) (hi : E .index) (hbud : E .budget) (cfg : 
           exact this
         · intro t h
           have := hcls.2; rw [h] at this
-          simp only [sliceOK, Option.isSome_iff_exists] at this
-          exact this
+          simp only [sliceVOK] at this
+          cases hv : vtyOf t with
+          | none => rw [hv] at this; cases this
+          | some Vr => rw [hv] at this; exact ⟨Vr, rfl, this⟩
       · simp only [hin, Bool.false_eq_true, if_false, Bool.and_eq_true] at hcls
-        have hop' : op = ".." := by
+        have hop' : op = ".." ∨ op = "**" := by
           simp only [Bool.or_eq_true, beq_iff_eq] at hop hin
-          rcases hop with (h | h) | h
+          rcases hop with ((h | h) | h) | h
           · exact absurd (Or.inl h) hin
           · exact absurd (Or.inr h) hin
-          · exact h
-        subst hop'
-        refine spec2_range hbud cfg c cs m l r ihl ihr ?_ ?_
-        · intro t h
+          · exact Or.inl h
+          · exact Or.inr h
+        have h1 : ∀ t, synth cfg cs l = some t → ScalarT t := by
+          intro t h
           have := hcls.1; rw [h] at this; exact this
-        · intro t h
+        have h2 : ∀ t, synth cfg cs r = some t → ScalarT t := by
+          intro t h
           have := hcls.2; rw [h] at this; exact this
+        rcases hop' with rfl | rfl
+        · exact spec2_range hbud cfg c cs m l r ihl ihr h1 h2
+        · exact spec2_pow cfg c cs m l r ihl ihr h1 h2
   | .index m x i, cs, hf, ht => by
     simp only [inFrag2, Bool.and_eq_true] at hf
     simp only [typed2, Bool.and_eq_true] at ht
     obtain ⟨⟨⟨hsx, hsi⟩, htx⟩, hti⟩ := ht
-    refine spec2_index hi cfg c cs m x i (frag2_sound hd hi hbud cfg c henv x cs hf.1 htx)
-      (frag2_sound hd hi hbud cfg c henv i cs hf.2 hti) ?_ ?_
+    refine spec2_index hi cfg c cs m x i (frag2_sound hd hi hbud cfg c henv calls hw x cs hf.1 htx)
+      (frag2_sound hd hi hbud cfg c henv calls hw i cs hf.2 hti) ?_ ?_
     · intro t h
       rw [h] at hsx
       simp only [sliceOK, Option.isSome_iff_exists] at hsx
@@ -289,45 +546,140 @@ theorem frag2_sound (hd : E .divzero) (hi : E .index) (hbud : E .budget) (cfg : 
       rw [h] at hsi
       simp only [intOK, Bool.and_eq_true] at hsi
       exact ⟨hsi.1, hsi.2⟩
+  | .slice m x none none, cs, hf, ht => by
+    simp only [inFrag2] at hf
+    simp only [typed2, Bool.and_eq_true] at ht
+    refine spec2_slice hi cfg c cs m x none none (frag2_sound hd hi hbud cfg c henv calls hw x cs hf ht.2)
+      (fun n h => by cases h) (fun n h => by cases h) (sliceOK_elim ht.1)
+      (fun n it h => by cases h) (fun n it h => by cases h)
+  | .slice m x (some f) none, cs, hf, ht => by
+    simp only [inFrag2, Bool.and_eq_true] at hf
+    simp only [typed2, Bool.and_eq_true] at ht
+    obtain ⟨⟨⟨h1, h2⟩, h3⟩, h4⟩ := ht
+    refine spec2_slice hi cfg c cs m x (some f) none (frag2_sound hd hi hbud cfg c henv calls hw x cs hf.1 h2)
+      (fun n h => by cases h; exact frag2_sound hd hi hbud cfg c henv calls hw f cs hf.2 h4) (fun n h => by cases h)
+      (sliceOK_elim h1) (fun n it h => by cases h; exact intOK_elim h3 it) (fun n it h => by cases h)
+  | .slice m x none (some t), cs, hf, ht => by
+    simp only [inFrag2, Bool.and_eq_true] at hf
+    simp only [typed2, Bool.and_eq_true] at ht
+    obtain ⟨⟨⟨h1, h2⟩, h3⟩, h4⟩ := ht
+    refine spec2_slice hi cfg c cs m x none (some t) (frag2_sound hd hi hbud cfg c henv calls hw x cs hf.1 h2)
+      (fun n h => by cases h) (fun n h => by cases h; exact frag2_sound hd hi hbud cfg c henv calls hw t cs hf.2 h4)
+      (sliceOK_elim h1) (fun n it h => by cases h) (fun n it h => by cases h; exact intOK_elim h3 it)
+  | .slice m x (some f) (some t), cs, hf, ht => by
+    simp only [inFrag2, Bool.and_eq_true] at hf
+    simp only [typed2, Bool.and_eq_true] at ht
+    obtain ⟨⟨⟨⟨⟨h1, h2⟩, h3⟩, h4⟩, h5⟩, h6⟩ := ht
+    refine spec2_slice hi cfg c cs m x (some f) (some t) (frag2_sound hd hi hbud cfg c henv calls hw x cs hf.1.1 h2)
+      (fun n h => by cases h; exact frag2_sound hd hi hbud cfg c henv calls hw f cs hf.1.2 h4)
+      (fun n h => by cases h; exact frag2_sound hd hi hbud cfg c henv calls hw t cs hf.2 h6)
+      (sliceOK_elim h1) (fun n it h => by cases h; exact intOK_elim h3 it) (fun n it h => by cases h; exact intOK_elim h5 it)
   | .builtin m name [a], cs, hf, ht => by
     simp only [inFrag2, Bool.and_eq_true, beq_iff_eq] at hf
     simp only [typed2, Bool.and_eq_true] at ht
     obtain ⟨rfl, hfa⟩ := hf
-    refine spec2_len cfg c cs m a (frag2_sound hd hi hbud cfg c henv a cs hfa ht.2) ?_
+    refine spec2_len cfg c cs m a (frag2_sound hd hi hbud cfg c henv calls hw a cs hfa ht.2) ?_
     intro t h
     have hl := ht.1
     rw [h] at hl
-    simp only [lenOK, Bool.or_eq_true, beq_iff_eq, Option.isSome_iff_exists] at hl
-    rcases hl with hstr | ⟨k, hk⟩
-    · have hsc : ScalarT t := by unfold ScalarT; rw [hstr]; rfl
-      exact ⟨.sc t.kind, vtyOf_scalar hsc, Or.inl (by rw [hstr])⟩
-    · exact ⟨.sl k, vtyOf_slice_of hk, Or.inr ⟨k, rfl⟩⟩
+    simp only [lenOK] at hl
+    cases hv : vtyOf t with
+    | none => rw [hv] at hl; cases hl
+    | some V =>
+      rw [hv] at hl
+      simp only [Bool.or_eq_true, beq_iff_eq] at hl
+      exact ⟨V, rfl, hl⟩
   | .builtin m name [a, .closure mc b], cs, hf, ht => by
     simp only [inFrag2, Bool.and_eq_true] at hf
     simp only [typed2, Bool.and_eq_true] at ht
     obtain ⟨⟨hname, hfa⟩, hfb⟩ := hf
-    obtain ⟨⟨hsa, hta⟩, hbody⟩ := ht
-    refine spec2_predBuiltin cfg c cs m mc name a b hname (frag2_sound hd hi hbud cfg c henv a cs hfa hta) ?_ ?_ ?_
-    · intro coll hc
+    obtain ⟨⟨⟨hsa, hta⟩, hdt⟩, hbody⟩ := ht
+    have iha := frag2_sound hd hi hbud cfg c henv calls hw a cs hfa hta
+    have ihb : ∀ coll, synth cfg cs a = some coll → Spec2 E cfg c (coll :: cs) b := by
+      intro coll hc
       rw [hc] at hbody
       simp only [Bool.and_eq_true] at hbody
-      exact frag2_sound hd hi hbud cfg c henv b (coll :: cs) hfb hbody.2
-    · intro t h
-      rw [h] at hsa
-      simp only [sliceOK, Option.isSome_iff_exists] at hsa
-      exact hsa
-    · intro coll bt hc hb'
+      exact frag2_sound hd hi hbud cfg c henv calls hw b (coll :: cs) hfb hbody.2
+    by_cases hp : isPredBuiltin name = true
+    · refine spec2_predBuiltin cfg c cs m mc name a b hp iha ihb (sliceOK_elim hsa) ?_
+      intro coll bt hc hb'
       rw [hc] at hbody
       simp only [Bool.and_eq_true] at hbody
+      have hnm : (name == "map") = false := by
+        rcases isPredBuiltin_cases hp with rfl | rfl | rfl | rfl | rfl <;> decide
       have := hbody.1
-      rw [hb'] at this
+      rw [hnm, hb'] at this
       exact this
+    · have hfm : name = "filter" ∨ name = "map" := by
+        simp only [hp, Bool.false_or, Bool.or_eq_true, beq_iff_eq] at hname
+        exact hname
+      have hdt' : cfg.dt.staticSliceOf = false := by
+        simp only [hp, Bool.false_or] at hdt
+        simpa using hdt
+      refine spec2_filterMap hi hbud cfg c cs m mc name a b hfm hdt' iha ihb (sliceOK_elim hsa) ?_
+      intro coll bt hc hb'
+      rw [hc] at hbody
+      simp only [Bool.and_eq_true] at hbody
+      have h1 := hbody.1
+      rw [hb'] at h1
+      rcases hfm with rfl | rfl
+      · simp (config := {decide := true}) only [if_false] at h1
+        exact ⟨⟨_, vtyOf_scalar h1⟩, fun _ => h1⟩
+      · simp (config := {decide := true}) only [if_true] at h1
+        exact ⟨Option.isSome_iff_exists.1 h1, fun h => absurd h (by decide)⟩
+  | .func m name args fast, cs, hf, ht => by
+    simp only [inFrag2, Bool.and_eq_true] at hf
+    obtain ⟨hcalls, hfa⟩ := hf
+    simp only [typed2] at ht
+    cases hft : funcTargetC cfg name with
+    | none => rw [hft] at ht; cases ht
+    | some p =>
+      obtain ⟨fn, im⟩ := p
+      rw [hft] at ht
+      simp only [] at ht
+      refine spec2_func hd cfg c (hw hcalls) cs m name args fast (by rw [hft]; rfl) ?_
+      intro fn' im' ins variadic numIn offset out h1 h2
+      rw [hft] at h1
+      cases h1
+      rw [h2] at ht
+      simp only [] at ht
+      exact frag2_args hd hi hbud cfg c henv calls hw args cs ins variadic numIn offset 0 hfa ht
+  | .array m xs, cs, hf, ht => by
+    simp only [inFrag2] at hf
+    simp only [typed2] at ht
+    exact spec2_array hbud cfg c cs m xs (frag2_elems hd hi hbud cfg c henv calls hw xs cs hf ht)
   | .nil _, _, hf, _ | .const _ _, _, hf, _ | .matches _ _ _ _, _, hf, _ | .prop _ _ _ _, _, hf, _
-  | .slice _ _ _ _, _, hf, _ | .method _ _ _ _ _, _, hf, _ | .func _ _ _ _, _, hf, _
-  | .closure _ _, _, hf, _ | .array _ _, _, hf, _ | .map _ _, _, hf, _ | .pair _ _ _, _, hf, _ => by
+  | .method _ _ _ _ _, _, hf, _
+  | .closure _ _, _, hf, _ | .map _ _, _, hf, _ | .pair _ _ _, _, hf, _ => by
     simp [inFrag2] at hf
   | .builtin _ _ [], _, hf, _ => by simp [inFrag2] at hf
   | .builtin _ _ (_ :: _ :: _ :: _), _, hf, _ => by simp [inFrag2] at hf
   | .builtin _ _ [_, .nil _], _, hf, _ => by simp [inFrag2] at hf
+
+theorem frag2_elems (hd : E .divzero) (hi : E .index) (hbud : E .budget) (cfg : CheckCfg) (c : SCfg)
+    (henv : EnvConforms2 cfg c.env) (calls : Bool) (hw : calls = true → WorldConforms E cfg c) :
+    ∀ (xs : List Node) (cs : List OTy), inFrag2L calls xs = true → typed2L cfg cs xs = true →
+      ElemsOK E cfg c cs xs
+  | [], _, _, _ => trivial
+  | a :: rest, cs, hf, ht => by
+    simp only [inFrag2L, Bool.and_eq_true] at hf
+    simp only [typed2L, Bool.and_eq_true] at ht
+    refine ⟨⟨?_, frag2_sound hd hi hbud cfg c henv calls hw a cs hf.1 ht.1.2, ht.1.1⟩,
+      frag2_elems hd hi hbud cfg c henv calls hw rest cs hf.2 ht.2⟩
+    cases a <;> first | rfl | (simp [inFrag2] at hf)
+
+theorem frag2_args (hd : E .divzero) (hi : E .index) (hbud : E .budget) (cfg : CheckCfg) (c : SCfg)
+    (henv : EnvConforms2 cfg c.env) (calls : Bool) (hw : calls = true → WorldConforms E cfg c) :
+    ∀ (args : List Node) (cs : List OTy) (ins : List Ty) (variadic : Bool) (numIn offset i : Nat),
+      inFrag2L calls args = true → typed2A cfg cs ins variadic numIn offset i args = true →
+      ArgsOK E cfg c cs ins variadic numIn offset i args
+  | [], _, _, _, _, _, _, _, _ => trivial
+  | a :: rest, cs, ins, variadic, numIn, offset, i, hf, ht => by
+    simp only [inFrag2L, Bool.and_eq_true] at hf
+    simp only [typed2A, Bool.and_eq_true] at ht
+    refine ⟨⟨?_, frag2_sound hd hi hbud cfg c henv calls hw a cs hf.1 ht.1.2, ht.1.1⟩,
+      frag2_args hd hi hbud cfg c henv calls hw rest cs ins variadic numIn offset (i + 1) hf.2 ht.2⟩
+    cases a <;> first | rfl | (simp [inFrag2] at hf)
+end
 
 end ExprModel
